@@ -1,5 +1,5 @@
 (* C09 — model of cffi's evaluation of integer constant expressions
-   (src/cffi/cparser.py, Parser._parse_constant :884 and Parser._add_integer_constant :469).
+   (src/cffi/cparser.py, Parser._parse_constant and Parser._add_integer_constant).
 
    Regenerated from the source (C09/Gen.v): _c_div, the unary/binary operator dispatch, _simple_escapes.
    Hand-written here (tied by correspondence; the translator refuses to regenerate when the shape of
@@ -49,9 +49,9 @@ Definition num_value (s1 : text) : res Z :=
   | None =>
       if (1 <? Z.of_nat (length s1)) then
         if prefix2_is s1 120 then
-          match py_int 16 s1 with Some v => Ok v | None => Err ValueError end    (* int(s, 16) is not guarded *)
+          match py_int 16 s1 with Some v => Ok v | None => Err CDefError end    (* inner try/except ValueError: pass *)
         else if prefix2_is s1 98 then
-          match py_int 2 s1 with Some v => Ok v | None => Err ValueError end
+          match py_int 2 s1 with Some v => Ok v | None => Err CDefError end
         else Err CDefError
       else Err CDefError
   end.
